@@ -58,6 +58,7 @@ MUTANTS = {
         ('getxattr-count-as-value', S, "            Ok(GetxattrReply::Count(count)) => {\n                let out = GetxattrOut {\n                    size: count,", "            Ok(GetxattrReply::Count(count)) => {\n                let out = GetxattrOut {\n                    size: count + 1,"),
     ],
     'C04': [
+        ('async-write3-check-omits-data3', 'src/transport/virtiofs/mod.rs', "            self.check_available_space(data.len(), data2.len(), data3.len())?;", "            self.check_available_space(data.len(), data2.len(), 0)?;"),
         ('fdw-space-check-ge', 'src/transport/fusedev/mod.rs', "        if sz > self.available_bytes() {", "        if sz >= self.available_bytes() {"),
         ('fdw-write-vectored-skips-short-slices', 'src/transport/fusedev/mod.rs', "filter(|b| !b.is_empty())", "filter(|b| b.len() > 1)"),
         ('fdw-write-vectored-no-upfront-check', 'src/transport/fusedev/mod.rs', "self.check_available_space(bufs.iter().fold(0, |acc, x| acc + x.len()))?;", "self.check_available_space(0)?;"),
